@@ -21,7 +21,7 @@ VARIABLES l, cur, dcur, bad, skip
 
 tvars == <<l, cur, dcur, bad, skip>>
 
-FromJ(j) == [j EXCEPT !.opts = LoRange(j.opts), !.acc = LoRange(j.acc)]
+FromJ(j) == [j EXCEPT !.opts = LoRange(j.opts), !.acc = LoRange(j.acc), !.lvl = LoRange(j.lvl)]
 
 ObsEq(o, rec) == \A f \in FIELDS : o[f] = rec[f]
 ObsDiff(o, rec) == {f \in FIELDS : o[f] # rec[f]}
